@@ -160,6 +160,8 @@ def check(ctx):
     rep.floor('R1', 'proximal operator classes', n_prox, 13)
     _positive_control(rep, model)
     _call_sites(ctx, rep)
+    from . import c10b
+    c10b.run(rep, model)
     return rep
 
 
